@@ -22,8 +22,9 @@ CONSTANTS Cmds,          \* subset of the command alphabet to explore
           StartInTx      \* TRUE: behaviours start inside an open transaction (after EHLO, MAIL)
 
 VARIABLES hist, acked,   \* acked: per mailbox, number of messages the contract says were delivered
-          prev           \* the contract state before the last command (for the transition tour)
-gvars == <<st, from, rcpts, boxes, maxRcpt, reply, hist, acked, prev>>
+          prev,          \* the contract state before the last command (for the transition tour)
+          pprev          \* ... and before the last two commands (2-switch tour)
+gvars == <<st, from, rcpts, boxes, maxRcpt, reply, hist, acked, prev, pprev>>
 
 NoHook == [action |-> "none"]
 (* scripted hook answers (C17): garbage (wrong kind of value), a raised error, *)
@@ -55,7 +56,7 @@ GInit == /\ \E mr \in MaxRcpts :
                    THEN <<[c |-> "helo", verb |-> "EHLO", arg |-> TRUE], [c |-> "mail", k |-> "ok", hook |-> "none"]>>
                    ELSE <<>>
          /\ acked = [m \in Mailbox |-> 0]
-         /\ prev = <<>>
+         /\ prev = <<>> /\ pprev = <<>>
 
 Has(c) == c \in Cmds
 
@@ -70,7 +71,7 @@ GStep ==
     \/ \E k \in BodyKinds : Body([body |-> k], BodyDec(k)) /\ Rec([c |-> "body", k |-> k])
     \/ Has("rset") /\ Rset /\ Rec([c |-> "rset"])
     \/ \E w \in {"noop", "vrfy"} : Has(w) /\ Harmless /\ Rec([c |-> w])
-    \/ \E w \in {"unimpl", "unknown", "short", "empty", "garbage", "long", "starttls", "authother", "authplainnoarg"} :
+    \/ \E w \in {"unimpl", "unknown", "short", "empty", "garbage", "long", "starttls", "authother", "authplainnoarg", "authbare"} :
           Has(w) /\ Refused /\ Rec([c |-> w])
     \/ Has("authplain") /\ Auth("plain") /\ Rec([c |-> "authplain"])
     \/ Has("authlogin") /\ Auth("login") /\ Rec([c |-> "authlogin"])
@@ -83,7 +84,7 @@ Gain(m) == Cardinality({i \in DOMAIN rcpts : rcpts[i].store /\ rcpts[i].mbox = m
 GNext == /\ (Record => Len(hist) < Depth)
          /\ GStep
          /\ (OnlyOk => reply'.cls = "ok")
-         /\ prev' = <<st, from, rcpts, boxes, maxRcpt>>
+         /\ prev' = <<st, from, rcpts, boxes, maxRcpt>> /\ pprev' = prev
          /\ acked' = IF st = "DATA" /\ reply'.cls = "ok"
                      THEN [m \in Mailbox |-> acked[m] + Gain(m)] ELSE acked
 
@@ -96,6 +97,9 @@ GSpec == GInit /\ [][GNext]_gvars
 (* a transaction to a fresh recipient, so an envelope or a session state    *)
 (* that differs from the contract's shows up in a reply or in the store.    *)
 TourView == <<prev, IF hist = <<>> THEN <<>> ELSE hist[Len(hist)], maxRcpt>>
+(* 2-switch tour: every pair of consecutive edges once (finds state the      *)
+(* implementation keeps across a command that the contract does not)         *)
+TourView2 == <<pprev, IF Len(hist) < 2 THEN <<>> ELSE hist[Len(hist) - 1], IF hist = <<>> THEN <<>> ELSE hist[Len(hist)], maxRcpt>>
 TxSuffix == <<[c |-> "rcpt", k |-> "b", hook |-> "none"], [c |-> "data", arg |-> FALSE], [c |-> "body", k |-> "ok"]>>
 MailCmd  == [c |-> "mail", k |-> "ok", hook |-> "none"]
 Suffix ==
